@@ -2153,14 +2153,20 @@ def spec_check(ctx, budget):
         "bounds; hypothesis app LR >= 0. non-trivial = optimisation improved lnL / alt has more free parameters / LR > 0"
     )
     rng = ctx.subrng(f"spec{budget}")
-    _spec_init(ctx, out, rng, budget)
-    _spec_optimise(ctx, out, rng, budget)
-    _spec_hypothesis(ctx, out, rng, budget)
-    _spec_apps(ctx, out, rng, budget)
-    _spec_declared(ctx, out, rng, budget)
+    # a stream that RAISES (e.g. every lf.optimise refusing its start vector) must not keep the later streams from
+    # turning the same defect into a concrete failing input; the exception is re-raised if nothing else was found
+    pending = None
+    for stream in (_spec_init, _spec_optimise, _spec_hypothesis, _spec_apps, _spec_declared):
+        try:
+            stream(ctx, out, rng, budget)
+        except Exception as e:  # noqa: BLE001
+            bump(out, "stream_raised", f"{stream.__name__}:{type(e).__name__}")
+            pending = pending or e
     from . import c16_script
 
     c16_script.spec_stream(ctx, out, ctx.subrng(f"script{budget}"), budget, _script_helpers(), TREES)
+    if pending is not None and not [f for f in out["failures"] if f["kind"] == "spec"]:
+        raise pending
     return out
 
 
